@@ -12,7 +12,8 @@ from ..lang import refint
 PAYLOADS = ["int", "str", "list", "obj"]
 CARRIERS = ["var", "param", "result", "elem", "field", "builtin", "literal"]
 CONSTRUCTS = ["eqnil", "neqnil", "get", "or", "or-var", "or-chain", "unwrap-stmt", "unwrap-if", "unwrap-while", "unwrap-expr",
-              "eq-plain", "plain-eq"]
+              "eq-plain", "plain-eq", "or-operand"]
+MINPAREN_CONSTRUCTS = {"or-operand"}     # rendered with minimal parentheses: the construct is about how `or` groups with its neighbours
 POSITIONS = ["same", "block", "loop", "else", "block2", "fn", "escaped"]
 
 TYPE = {"int": "int", "str": "str", "list": "[int...]", "obj": "C"}
@@ -106,6 +107,16 @@ def construct_stmts(payload, construct, X, carrier, is_present):
     if construct == "or-var":
         # the fallback is a variable (declared next to the carrier) that is mentioned nowhere else
         return observe(payload, ("or", X, V("dflt")), "orv")
+    if construct == "or-operand":
+        # `(x) or y` written WITHOUT parentheses of its own as the right operand of a binary operator and of a comparison: it is a postfix
+        # form that binds tighter than every binary operator, so the operator applies to its value, never to the bare optional
+        fb = ("call", V("lg"), [("int", 7)])
+        if payload == "int":
+            return [("print", ("bin", "-", ("int", 100), ("or", X, fb))), ("print", ("bin", "*", ("int", 2), ("or", X, fb))),
+                    ("print", ("bin", "<", ("int", 6), ("or", X, fb))), ("print", ("bin", "&&", ("bool", True), ("bin", "==", ("int", 5), ("or", X, fb))))]
+        if payload == "str":
+            return [("print", ("bin", "+", ("str", "p-"), ("or", X, fb))), ("print", ("bin", "==", ("str", "s"), ("or", X, fb)))]
+        return None
     if construct == "or-chain":
         inner = ("or", X, ("call", V("mk"), [("int", 0)]))
         return observe(payload, ("or", inner, ("call", V("lg"), [("int", 8)])), "orc")
@@ -241,7 +252,7 @@ class C12(Check):
         if ast is None:
             return {"outcome": "inexpressible", "nontrivial": False}
         desc = self.describe(case)
-        src = refint.program(ast)
+        src = refint.program(ast, minparen=case[3] in MINPAREN_CONSTRUCTS)
         it = refint.Interp()
         ok, failure = it.run(ast)
         res = driver.run_ms(src)
